@@ -41,7 +41,7 @@ class Scope(object):
 
 
 class Occurrence(object):
-    __slots__ = ('node', 'key', 'raw', 'name', 'role', 'scope', 'binding', 'target_scope')
+    __slots__ = ('node', 'key', 'raw', 'name', 'role', 'scope', 'binding', 'target_scope', 'aug')
 
     def __init__(self, node, key, raw, name, role, scope):
         self.node = node
@@ -52,6 +52,7 @@ class Occurrence(object):
         self.scope = scope      # scope in which the occurrence is evaluated/bound (after walrus / declaration routing)
         self.binding = None
         self.target_scope = None
+        self.aug = False        # target of an augmented assignment: read and written
 
 
 def nkey(node):
@@ -292,6 +293,14 @@ class Builder(ast.NodeVisitor):
             self.visit(p)
         if node.rest is not None:
             self.occ(node, (nkey(node), 'rest'), node.rest, 'match')
+
+    def visit_AugAssign(self, node):
+        self.visit(node.target)
+        if isinstance(node.target, ast.Name):
+            o = self.m.occ.get((nkey(node.target), 'id'))
+            if o is not None:
+                o.aug = True
+        self.visit(node.value)
 
     def visit_AnnAssign(self, node):
         # compiler order: target, annotation, value  (binding analysis does not depend on it)
